@@ -1,18 +1,18 @@
 CONSTANTS
   Variant = "fixed"
-  Hosts <- Hosts3
-  Paths <- Paths3
+  Hosts <- Hosts2
+  Paths <- Paths1
   Names <- Names1
-  DomAttrs <- DomAll
-  PathAttrs <- PathFoo
-  Kinds <- KSetDel
+  DomAttrs <- DomPlain
+  PathAttrs <- PathNone
+  Kinds <- KSet
   Codes <- CodesLoop4
-  Locs <- LocsHosts
-  Methods <- MGetPost
+  Locs <- LocsX
+  Methods <- MPostHead
   Schemes <- SHttp
   Reads <- RNo
   Allows <- ABoth
-  MaxOpens = 2
+  MaxOpens = 1
   MaxResp = 2
   MaxSC = 1
   Label = TRUE
